@@ -21,11 +21,31 @@ theorem failure_recorded (cx : Ctx) (t : Nat) (sf : Rec) (rv : Status) (out : Op
   simp [recordNewState, hrv, setRec, zapDeps2, setFailed]
 
 /-- A target that already failed in this run is not executed a second time: the request is
-answered with `EXIT_TARGET_FAILED` (32) and nothing is changed or run. -/
+answered with `EXIT_TARGET_FAILED` (32) as the job's result and nothing is changed or run. -/
 theorem once_per_run (E : Engine) (d : Defects) (cx : Ctx) (fuel t : Nat) (w : World)
+    (hd : d.failedTargetAbortsRun = false)
     (hr : cx.isRedo = false) (hf : isFailedR (getRec w cx.runid t) cx.runid = true) :
-    buildJob E d cx fuel t w = (.abort EXIT_TARGET_FAILED, w) ∧ EXIT_TARGET_FAILED = 32 := by
-  simp [buildJob, shouldBuild, hr, hf, EXIT_TARGET_FAILED]
+    buildJob E d cx fuel t w = (.done EXIT_TARGET_FAILED, w) ∧ EXIT_TARGET_FAILED = 32 := by
+  simp [buildJob, shouldBuild, hr, hf, hd, EXIT_TARGET_FAILED]
+
+/-- With `--keep-going`, an already-failed target does not stop the command: the remaining
+targets are still considered (the pinned tree aborted the whole run here; see known findings). -/
+theorem keep_going_past_failed (E : Engine) (d : Defects) (cx : Ctx) (fuel t : Nat) (ts seen : List Nat) (w : World) (e : Bool)
+    (hd : d.failedTargetAbortsRun = false) (hk : cx.keepGoing = true) (hs : t ∉ seen)
+    (hcyc : (!cx.unlocked && decide (t ∈ cx.cycles)) = false)
+    (hr : cx.isRedo = false) (hf : isFailedR (getRec (addKnown w t) cx.runid t) cx.runid = true) :
+    runTargets E d cx fuel (t :: ts) seen e w = runTargets E d cx fuel ts (t :: seen) true (addKnown w t) := by
+  have hj := (once_per_run E d cx fuel t (addKnown w t) hd hr hf).1
+  rw [runTargets]
+  simp only [hs, if_false, hk, Bool.not_true, Bool.and_false, Bool.false_eq_true, hcyc, hj]
+  simp [EXIT_TARGET_FAILED]
+
+/-- Witness for the repaired defect `failedTargetAbortsRun`: with the switch on, the same
+request aborts the run with status 32 whatever targets remain. -/
+theorem failed_aborts_witness (E : Engine) (cx : Ctx) (fuel t : Nat) (w : World)
+    (hr : cx.isRedo = false) (hf : isFailedR (getRec w cx.runid t) cx.runid = true) :
+    buildJob E { failedTargetAbortsRun := true } cx fuel t w = (.abort EXIT_TARGET_FAILED, w) := by
+  simp [buildJob, shouldBuild, hr, hf]
 
 /-- Once a failure is known in a command, the command's status is non-zero whatever happens
 to the remaining targets. -/
